@@ -56,6 +56,26 @@ def children():
 
 
 def judge(src, options, expect_child=False):
+    """A time-bound excess must be reproducible: machine noise (other load, a garbage collection of the worker's own heap)
+    is excluded by re-running the call once; an algorithmic blow-up is slow every time."""
+    import gc
+
+    gc.disable()
+    try:
+        r = _judge(src, options)
+        if r[0] == "too-slow":
+            gc.enable()
+            gc.collect()
+            gc.disable()
+            r2 = _judge(src, options)
+            if r2[0] != "too-slow":
+                return r2
+        return r
+    finally:
+        gc.enable()
+
+
+def _judge(src, options, expect_child=False):
     """Run one call under the watchdog.  -> (symptom or None, description, verdict class)"""
     signal.signal(signal.SIGALRM, _alarm)
     signal.alarm(60)
